@@ -127,6 +127,9 @@ func invalidClasses() []invClass {
 	add("ptrptr:struct-field", reflect.TypeOf((**plainS)(nil)), "1,optional,plainS")
 	add("ptrptr:struct-default", reflect.TypeOf((**plainS)(nil)), "1,default,plainS")
 	add("ptrptr:scalar", reflect.TypeOf((**int32)(nil)), "1,optional,i32")
+	add("ptrptr:scalar-noann", reflect.TypeOf((**int32)(nil)), "1,optional")
+	add("ptrptr:string-noann", reflect.TypeOf((**string)(nil)), "1,optional")
+	add("ptrptr:struct-noann", reflect.TypeOf((**plainS)(nil)), "1,optional")
 	add("ptrptr:list-elem", reflect.TypeOf([]**plainS(nil)), "1,default,list<plainS>")
 	add("ptrptr:map-value", reflect.TypeOf(map[string]**plainS(nil)), "1,default,map<string:plainS>")
 	add("ptrcontainer:list", reflect.TypeOf((*[]int32)(nil)), "1,optional,list<i32>")
@@ -236,6 +239,10 @@ func c13SharedSpec(salt int) *core.StructSpec {
 	return &core.StructSpec{Fields: []*core.FieldSpec{
 		{Name: fmt.Sprintf("Sh_%d", salt), ID: 1, Type: &core.TypeSpec{Kind: core.KI32}},
 		{Name: "ShS", ID: 2, Req: core.Optional, Type: &core.TypeSpec{Kind: core.KString}, GoPtr: true},
+		// un-annotated optional pointers: whatever the parser remembers about *int32 / *string / *struct
+		// from valid types must not leak into its verdict on **int32 and friends
+		{Name: "ShP", ID: 3, Req: core.Optional, Type: &core.TypeSpec{Kind: core.KI32}, GoPtr: true, Sp: core.Spelling{OmitAnn: true}},
+		{Name: "ShQ", ID: 4, Req: core.Optional, Type: &core.TypeSpec{Kind: core.KString}, GoPtr: true, Sp: core.Spelling{OmitAnn: true}},
 	}}
 }
 
